@@ -37,6 +37,9 @@ func (m *ModelServer) ListConsumables(_ context.Context, request *traits.ListCon
 	if err := decodePageToken(request.PageToken, pageToken); err != nil {
 		return nil, err
 	}
+	if err := checkPageSize(request.GetPageSize()); err != nil {
+		return nil, err
+	}
 
 	lastKey := pageToken.GetLastResourceName() // the key() of the last item we sent
 	pageSize := capPageSize(int(request.GetPageSize()))
@@ -113,6 +116,9 @@ func (m *ModelServer) PullStock(request *traits.PullStockRequest, server traits.
 func (m *ModelServer) ListInventory(_ context.Context, request *traits.ListInventoryRequest) (*traits.ListInventoryResponse, error) {
 	pageToken := &types.PageToken{}
 	if err := decodePageToken(request.PageToken, pageToken); err != nil {
+		return nil, err
+	}
+	if err := checkPageSize(request.GetPageSize()); err != nil {
 		return nil, err
 	}
 
